@@ -26,6 +26,7 @@ TECHNIQUE = "static analysis of rustc MIR facts: closure verdict extraction, dom
 
 G = gs.G
 B = "libp2p_gossipsub::behaviour::Behaviour::"
+CONFIGS = [{"name": "gossipsub-features", "packages": ["libp2p-gossipsub"], "features": "metrics,partial-messages"}]
 
 SELFTEST = [
     {"mutation": "seeded C28: outbound fill closure loses `!backoffs.is_backoff_with_slack(topic_hash, peer_id)`", "caught_by": "eligible/heartbeat#2 (outbound fill): not backed off"},
